@@ -380,6 +380,11 @@ impl Runner {
         f(&mut case)
     }
 
+    /// developer aid: VERIF_ONLY_PHASE=<substring> runs only the phases whose name contains it (probes always run)
+    fn skip_phase(&self, phase: &str) -> bool {
+        self.replay.is_none() && std::env::var("VERIF_ONLY_PHASE").is_ok_and(|p| !phase.contains(&p))
+    }
+
     /// executions per libFuzzer job (only VERIF_SCALE applies)
     pub fn fuzz_runs(&self, n: u64) -> u64 {
         match std::env::var("VERIF_SCALE").ok().and_then(|s| s.parse::<f64>().ok()) {
@@ -454,6 +459,9 @@ impl Runner {
 
     /// proptest-driven random search with shrinking over tapes of up to `max_tape` bytes
     pub fn search(&mut self, phase: &str, cases: u64, max_tape: usize, f: impl Fn(&mut Case<'_>) -> CaseResult + Sync) {
+        if self.skip_phase(phase) {
+            return;
+        }
         match self.replay_wants(phase) {
             Some(None) => return,
             Some(Some(ReplaySpec::Tape { tape, .. })) => {
@@ -565,6 +573,9 @@ impl Runner {
 
     /// exhaustive enumeration of a finite domain addressed by index 0..n
     pub fn exhaustive(&mut self, phase: &str, n: u64, f: impl Fn(u64, &mut Case<'_>) -> CaseResult + Sync) {
+        if self.skip_phase(phase) {
+            return;
+        }
         match self.replay_wants(phase) {
             Some(None) => return,
             Some(Some(ReplaySpec::Index { index, .. })) => {
@@ -675,7 +686,7 @@ impl Runner {
     pub fn fuzz(&mut self, target: &str, runs: u64, max_len: usize, seeds: &[Vec<u8>]) {
         use std::process::{Command, Stdio};
         let phase = format!("fuzz:{target}");
-        if self.quick() && self.replay.is_none() {
+        if self.quick() && self.replay.is_none() || self.skip_phase(&phase) {
             return;
         }
         let replay_input = match self.replay_wants(&phase) {
@@ -715,7 +726,7 @@ impl Runner {
         // classify one input by running it alone
         let classify = |path: &str, strict: bool| -> Option<(String, String)> {
             let mut cmd = Command::new(&bin);
-            cmd.arg(path).arg("-timeout=60").stdin(Stdio::null());
+            cmd.arg(path).arg("-timeout=60").env("RUST_BACKTRACE", "0").stdin(Stdio::null());
             if strict {
                 cmd.env("VERIF_FUZZ_STRICT", "1");
             }
@@ -754,6 +765,8 @@ impl Runner {
                 .arg(&corpus)
                 .args([format!("-runs={runs}"), format!("-seed={seed}"), format!("-max_len={max_len}"), "-len_control=0".into(), format!("-artifact_prefix={art}/j{j}-"), "-timeout=60".into(), "-rss_limit_mb=6144".into(), "-print_final_stats=1".into(), "-verbosity=0".into()])
                 .env("VERIF_FUZZ_STATS", format!("{work}/stats-{j}.json"))
+                // (symbolising a backtrace under ASan can take longer than libFuzzer's unit timeout on a loaded machine)
+                .env("RUST_BACKTRACE", "0")
                 .stdin(Stdio::null())
                 .stdout(Stdio::null())
                 .stderr(Stdio::piped())
@@ -799,10 +812,18 @@ impl Runner {
         let mut arts: Vec<PathBuf> = std::fs::read_dir(&art).map(|d| d.filter_map(|e| e.ok().map(|e| e.path())).collect()).unwrap_or_default();
         arts.sort();
         let mut inconclusive = 0;
+        let mut slow_units = 0;
+        let mut inconclusive_names: Vec<String> = Vec::new();
         for a in &arts {
             let name = a.file_name().and_then(|n| n.to_str()).unwrap_or("").to_owned();
-            if name.contains("timeout-") || name.contains("oom-") || name.contains("slow-unit-") {
+            if name.contains("slow-unit-") {
+                // libFuzzer's report of a unit slower than 10 s of wall clock (a loaded machine is enough): not a failure
+                slow_units += 1;
+                continue;
+            }
+            if name.contains("timeout-") || name.contains("oom-") {
                 inconclusive += 1;
+                inconclusive_names.push(name);
                 continue;
             }
             let Some((sig, msg)) = classify(&a.to_string_lossy(), false) else { continue };
@@ -823,7 +844,10 @@ impl Runner {
             self.add_violation(sig, msg, json!({"kind": "fuzz", "phase": phase, "target": target, "input_hex": hex::encode(&input), "input_lossy": truncate(&String::from_utf8_lossy(&input), 400)}));
         }
         if inconclusive > 0 {
-            self.harness_error(format!("{phase}: {inconclusive} timeout/oom artifact(s) under {art}: inconclusive"));
+            self.harness_error(format!("{phase}: {inconclusive} timeout/oom artifact(s) under {art}: inconclusive ({})", inconclusive_names.join(", ")));
+        }
+        if slow_units > 0 {
+            self.note(format!("{phase}: {slow_units} slow-unit report(s) ignored"));
         }
         if failed_jobs > 0 && arts.is_empty() {
             self.harness_error(format!("{phase}: {failed_jobs} job(s) failed without an artifact"));
@@ -833,7 +857,7 @@ impl Runner {
             *self.stats.labels.entry(format!("{phase}:{k}")).or_default() += v;
         }
         self.phases.push(json!({"phase": phase, "kind": "libfuzzer", "jobs": jobs, "runs_per_job": runs, "max_len": max_len, "seed_inputs": seeds.len(), "executed_units": executed, "new_units_added": new_units, "target_counters": counters, "artifacts": arts.len(), "wall_s": t0.elapsed().as_secs_f64()}));
-        if self.violations.is_empty() {
+        if self.violations.is_empty() && inconclusive == 0 {
             let _ = std::fs::remove_dir_all(&work);
         }
     }
